@@ -211,12 +211,62 @@ pub fn run(ctx: &Ctx, rep: &mut Report) {
     rep.set("rejected_per_trait", json!(Tr::ALL.iter().map(|t| (t.name(), rejected[t.idx()])).collect::<Vec<_>>()));
 
     if ctx.replay.is_none() {
+        key_and_by(rep);
         misplaced(rep);
         cross_check(ctx, rep);
     }
 }
 
 /// R4: `ignore` / `reverse` / `key` / `by` on a type or on a variant is a compile error.
+/// `key = ..` AND `by = ..` in ONE attribute: both are customisations, so a trait is accepted exactly if it would be
+/// accepted with the key alone or with the function alone (Hash takes the key, the comparisons take the function);
+/// a related derived trait that has to fall back to its default is still refused.
+fn key_and_by(rep: &mut Report) {
+    for derived in slices() {
+        for entry in Entry::BOTH {
+            for t in Tr::ALL {
+                if !recognised(t, &derived) {
+                    continue;
+                }
+                let with_key = Combo::PLAIN.with(t, Arg::Key);
+                let with_by = Combo::PLAIN.with(t, Arg::By);
+                let a_key = attr_text(t, Arg::Key, KeyStyle::Distinct, KeyForm::Method);
+                let a_by = attr_text(t, Arg::By, KeyStyle::Distinct, KeyForm::Method);
+                // `#[x(key = K)]` + `#[x(by = F)]` -> `#[x(key = K, by = F)]`
+                let (Some(k), Some(b)) = (a_key.strip_suffix(")]"), a_by.split_once('(').map(|p| p.1)) else { continue };
+                let both = format!("{k}, {b}");
+                let item = single_field_item(Container::NamedStruct, crate::gen::Ctx::FirstOf2, "dxrt::V", &[both.clone()], "").print();
+                let attr = names(&derived).join(", ");
+                rep.stats.states += 1;
+                rep.stats.transitions += 1;
+                rep.stats.terminals += 1;
+                let text = format!("{} #[derive_ex({})] {}", entry.name(), attr, item);
+                rep.case(&text, true);
+                let traits = names(&derived);
+                let obs = match expand::expand_aligned(entry, &attr, &item, &traits) {
+                    Ok((_, Aligned::PerTrait(slots))) => slots.iter().map(|s| s.error().map(String::from)).collect::<Vec<_>>(),
+                    _ => {
+                        rep.violation(Violation { symptom: "expansion-not-per-trait".into(), atoms: BTreeSet::new(), what: format!("{both} with derive_ex({attr}) via {}: the expansion is not one item per trait", entry.name()), detail: json!({"gen": "key-and-by", "entry": entry.name(), "attr": attr, "item": item}), standalone: None });
+                        continue;
+                    }
+                };
+                for (k, &d) in derived.iter().enumerate() {
+                    let exp_accept = ref_accept(&with_key, d) || ref_accept(&with_by, d);
+                    let got_accept = obs[k].is_none();
+                    rep.outcome(&format!("key+by:{}:{}", d.name(), if got_accept { "accepted" } else { "rejected" }));
+                    if exp_accept != got_accept {
+                        let mut atoms = BTreeSet::new();
+                        atoms.insert(format!("entry={}", entry.name()));
+                        atoms.insert(format!("trait={}", d.name()));
+                        atoms.insert(format!("{}=key+by", t.attr()));
+                        rep.violation(Violation { symptom: if exp_accept { "valid-combination-rejected".into() } else { "misuse-accepted".into() }, atoms, what: format!("{both} with derive_ex({attr}) via {}: reference says {} must be {}, expander {}", entry.name(), d.name(), if exp_accept { "accepted" } else { "rejected" }, if got_accept { "accepts" } else { "rejects" }), detail: json!({"gen": "key-and-by", "entry": entry.name(), "attr": attr, "item": item, "trait": d.name()}), standalone: None });
+                    }
+                }
+            }
+        }
+    }
+}
+
 fn misplaced(rep: &mut Report) {
     let args = ["ignore", "reverse", "key = $.k_ord()", "by = dxrt::by_ord"];
     let attr = "Ord, PartialOrd, Eq, PartialEq, Hash";
